@@ -246,3 +246,28 @@ Proof.
     unfold unlinked in U. rewrite Hnd in U. destruct (linked nd); [|discriminate].
     eexists; split; [reflexivity|exact I].
 Qed.
+
+(* every id handed out so far is either a node of the forest (live cell) or has
+   been freed, exactly once; freed cells are gone *)
+Lemma inv_released_once h s : inv h s ->
+  NoDup (freed h) /\
+  (forall i, In i (freed h) -> cells h i = None /\ ~ In i (ids_st (lists s))) /\
+  (forall i, i < nextid h -> In i (freed h) \/ (exists nd, cells h i = Some nd)).
+Proof.
+  intros I. pose proof (i_perm _ _ I) as P.
+  assert (N : NoDup (ids_st (lists s) ++ sfreed s)).
+  { eapply Permutation_NoDup; [symmetry; exact P|apply seq_NoDup]. }
+  apply NoDup_app_inv in N. destruct N as (N1 & N2 & Dj).
+  split; [eapply Permutation_NoDup; [symmetry; exact (i_freed _ _ I)|exact N2]|]. split.
+  - intros i Hi. assert (Hs : In i (sfreed s)) by (eapply Permutation_in; [exact (i_freed _ _ I)|exact Hi]).
+    assert (Ni : ~ In i (ids_st (lists s))) by (intros K; exact (Dj _ K Hs)).
+    split; [|exact Ni]. destruct (cells h i) eqn:C; [|reflexivity].
+    exfalso. apply Ni. apply (i_dom _ _ I). rewrite C. discriminate.
+  - intros i Hi. rewrite (i_cnt _ _ I) in Hi.
+    assert (K : In i (ids_st (lists s) ++ sfreed s)).
+    { eapply Permutation_in; [symmetry; exact P|]. apply in_seq. lia. }
+    apply in_app_or in K. destruct K as [K|K].
+    + right. exact (rep_cell_some _ _ _ (i_rep _ _ I) K).
+    + left. eapply Permutation_in; [symmetry; exact (i_freed _ _ I)|exact K].
+Qed.
+
